@@ -49,13 +49,7 @@ func le32(n uint32) []byte {
 	return b
 }
 
-func cat(bs ...[]byte) []byte {
-	var out []byte
-	for _, b := range bs {
-		out = append(out, b...)
-	}
-	return out
-}
+// cat (byte-slice concatenation) is defined in eng_vm.go
 
 // (0 comes last: it is the one value whose encoding does not depend on the byte order)
 var kscU32Edges = []uint32{1, 2, 255, 256, 257, 65535, 65536, 1<<24 - 1, 1 << 24, math.MaxInt32, 1 << 31, math.MaxUint32 - 1, math.MaxUint32, 0}
